@@ -194,7 +194,27 @@ func (p Path) Infeasible() bool {
 	return false
 }
 
+// knownNonNil: values that are never nil (a freshly built error, an interface made from a
+// concrete value, the address of a local, a function or closure).
+func knownNonNil(v ssa.Value) bool {
+	switch x := v.(type) {
+	case *ssa.Call:
+		return isCallTo(&x.Call, "fmt.Errorf") || isCallTo(&x.Call, "errors.New")
+	case *ssa.MakeInterface, *ssa.Alloc, *ssa.MakeClosure, *ssa.Function, *ssa.MakeSlice, *ssa.MakeMap, *ssa.MakeChan:
+		return true
+	}
+	return false
+}
+
 func evalConstCmp(op token.Token, x, y ssa.Value) (val, known bool) {
+	if (isNilConst(y) && knownNonNil(x)) || (isNilConst(x) && knownNonNil(y)) {
+		switch op {
+		case token.EQL:
+			return false, true
+		case token.NEQ:
+			return true, true
+		}
+	}
 	cx, okx := x.(*ssa.Const)
 	cy, oky := y.(*ssa.Const)
 	if !okx || !oky {
@@ -249,6 +269,7 @@ func evalConstCmp(op token.Token, x, y ssa.Value) (val, known bool) {
 // edge whose condition evaluates to the opposite.
 func (p Path) InfeasibleByEval() bool {
 	e := &miniEnv{vals: map[ssa.Value]int64{}}
+	lens := lenFacts{}
 	for i, b := range p.Blocks {
 		if i > 0 {
 			prev := p.Blocks[i-1]
@@ -281,14 +302,133 @@ func (p Path) InfeasibleByEval() bool {
 		}
 		if i+1 < len(p.Blocks) {
 			if iff, ok := b.Instrs[len(b.Instrs)-1].(*ssa.If); ok && b.Succs[0] != b.Succs[1] {
+				took := p.Blocks[i+1] == b.Succs[0]
 				if c, ok := e.eval(iff.Cond, 0); ok {
-					took := p.Blocks[i+1] == b.Succs[0]
 					if took != (c != 0) {
 						return true
 					}
+				} else if !lens.assume(e, iff.Cond, took) {
+					return true
 				}
 			}
 		}
 	}
 	return false
+}
+
+// ResolveAt: the value v has when block index bi of the path executes (phis take the edge the
+// path came through at their most recent visit at or before bi).
+func (p Path) ResolveAt(v ssa.Value, bi int) ssa.Value {
+	for depth := 0; depth < 8; depth++ {
+		phi, ok := v.(*ssa.Phi)
+		if !ok {
+			return v
+		}
+		found := false
+		for i := bi; i >= 1; i-- {
+			if p.Blocks[i] == phi.Block() {
+				pred := p.Blocks[i-1]
+				for k, pb := range phi.Block().Preds {
+					if pb == pred {
+						v = phi.Edges[k]
+						found = true
+						break
+					}
+				}
+				bi = i - 1
+				break
+			}
+		}
+		if !found {
+			return v
+		}
+	}
+	return v
+}
+
+// lenFacts: interval knowledge about len(x) gathered from the branches a path takes (len(x) is
+// keyed by x: go/ssa re-computes len at every use).  `len(vals) == 0` false followed by
+// `0 < len(vals)` false is a contradiction: the path is infeasible.
+type lenFacts map[ssa.Value]*[2]int64
+
+func lenTerm(v ssa.Value) (ssa.Value, bool) {
+	if c, ok := v.(*ssa.Call); ok && builtinName(&c.Call) == "len" && len(c.Call.Args) == 1 {
+		return c.Call.Args[0], true
+	}
+	return nil, false
+}
+
+// assume records cond == took; false if the facts become contradictory.
+func (lf lenFacts) assume(e *miniEnv, cond ssa.Value, took bool) bool {
+	for {
+		if u, ok := cond.(*ssa.UnOp); ok && u.Op == token.NOT {
+			cond, took = u.X, !took
+			continue
+		}
+		break
+	}
+	bo, ok := cond.(*ssa.BinOp)
+	if !ok {
+		return true
+	}
+	op := bo.Op
+	var key ssa.Value
+	var c int64
+	if k, isLen := lenTerm(bo.X); isLen {
+		n, ok := e.eval(bo.Y, 0)
+		if !ok {
+			return true
+		}
+		key, c = k, n
+	} else if k, isLen := lenTerm(bo.Y); isLen {
+		n, ok := e.eval(bo.X, 0)
+		if !ok {
+			return true
+		}
+		key, c, op = k, n, swapOp(op)
+	} else {
+		return true
+	}
+	if !took {
+		op = negateOp(op)
+	}
+	iv := lf[key]
+	if iv == nil {
+		iv = &[2]int64{0, 1 << 60}
+		lf[key] = iv
+	}
+	switch op {
+	case token.EQL:
+		if c < iv[0] || c > iv[1] {
+			return false
+		}
+		iv[0], iv[1] = c, c
+	case token.NEQ:
+		if iv[0] == c && iv[1] == c {
+			return false
+		}
+		if iv[0] == c {
+			iv[0]++
+		}
+		if iv[1] == c {
+			iv[1]--
+		}
+	case token.LSS:
+		if c-1 < iv[1] {
+			iv[1] = c - 1
+		}
+	case token.LEQ:
+		if c < iv[1] {
+			iv[1] = c
+		}
+	case token.GTR:
+		if c+1 > iv[0] {
+			iv[0] = c + 1
+		}
+	case token.GEQ:
+		if c > iv[0] {
+			iv[0] = c
+		}
+	}
+	return iv[0] <= iv[1]
 }
